@@ -67,3 +67,52 @@ Proof.
 Qed.
 Lemma Forall_lookup {A} (P : nat * A -> Prop) k v l : Forall P l -> alookup k l = Some v -> P (k, v).
 Proof. intros F L. rewrite Forall_forall in F. apply F. apply alookup_In. exact L. Qed.
+
+(* alookup under the list operations *)
+Lemma alookup_app {A} k (l1 l2 : list (nat * A)) :
+  alookup k (l1 ++ l2) = match alookup k l1 with Some v => Some v | None => alookup k l2 end.
+Proof. induction l1 as [|[k' v] r IH]; cbn; [reflexivity|]. destruct (Nat.eqb k k'); [reflexivity | exact IH]. Qed.
+Lemma alookup_aupdate_same {A} k (v v' : A) l : alookup k l = Some v -> alookup k (aupdate k v' l) = Some v'.
+Proof.
+  induction l as [|[k' u] r IH]; cbn; [discriminate|]. destruct (Nat.eqb k k') eqn:E; cbn.
+  - rewrite Nat.eqb_refl. reflexivity.
+  - rewrite E. exact IH.
+Qed.
+Lemma alookup_aupdate_other {A} k k' (v' : A) l : k <> k' -> alookup k (aupdate k' v' l) = alookup k l.
+Proof.
+  intro N. induction l as [|[k2 u] r IH]; cbn; [reflexivity|]. destruct (Nat.eqb k' k2) eqn:E; cbn.
+  - apply Nat.eqb_eq in E. subst. destruct (Nat.eqb k k2) eqn:E2; [apply Nat.eqb_eq in E2; contradiction | reflexivity].
+  - destruct (Nat.eqb k k2); [reflexivity | exact IH].
+Qed.
+Lemma alookup_aremove_other {A} k k' (l : list (nat * A)) : k <> k' -> alookup k (aremove k' l) = alookup k l.
+Proof.
+  intro N. induction l as [|[k2 u] r IH]; cbn; [reflexivity|]. destruct (Nat.eqb k' k2) eqn:E; cbn.
+  - apply Nat.eqb_eq in E. subst. destruct (Nat.eqb k k2) eqn:E2; [apply Nat.eqb_eq in E2; contradiction | reflexivity].
+  - destruct (Nat.eqb k k2); [reflexivity | exact IH].
+Qed.
+Lemma alookup_keys {A} k (l : list (nat * A)) v : alookup k l = Some v -> In k (map fst l).
+Proof. intro H. apply alookup_In in H. apply (in_map fst) in H. exact H. Qed.
+Lemma alookup_not_key {A} k (l : list (nat * A)) : ~ In k (map fst l) -> alookup k l = None.
+Proof. intro N. destruct (alookup k l) eqn:E; [apply alookup_keys in E; contradiction | reflexivity]. Qed.
+Lemma alookup_aremove_same {A} k (l : list (nat * A)) : NoDup (map fst l) -> alookup k (aremove k l) = None.
+Proof.
+  induction l as [|[k2 u] r IH]; cbn; [reflexivity|]. intro ND. inversion ND; subst.
+  destruct (Nat.eqb k k2) eqn:E.
+  - apply Nat.eqb_eq in E. subst. apply alookup_not_key. exact H1.
+  - cbn. rewrite E. apply IH. exact H2.
+Qed.
+Lemma keys_aupdate {A} k (v : A) l : map fst (aupdate k v l) = map fst l.
+Proof. apply map_fst_aupdate. Qed.
+Lemma keys_aremove_incl {A} k (l : list (nat * A)) : incl (map fst (aremove k l)) (map fst l).
+Proof.
+  induction l as [|[k2 u] r IH]; cbn; [apply incl_refl|]. destruct (Nat.eqb k k2); [apply incl_tl, incl_refl|].
+  cbn. apply incl_cons; [left; reflexivity | apply incl_tl, IH].
+Qed.
+Lemma NoDup_keys_aremove {A} k (l : list (nat * A)) : NoDup (map fst l) -> NoDup (map fst (aremove k l)).
+Proof.
+  induction l as [|[k2 u] r IH]; cbn; [auto|]. intro ND. inversion ND; subst. destruct (Nat.eqb k k2); [assumption|].
+  cbn. constructor; [|auto]. intro H. apply H1. apply (keys_aremove_incl k r). exact H.
+Qed.
+Lemma alookup_map {A B} (h : A -> B) k (l : list (nat * A)) :
+  alookup k (map (fun p => (fst p, h (snd p))) l) = option_map h (alookup k l).
+Proof. induction l as [|[k2 u] r IH]; cbn; [reflexivity|]. destruct (Nat.eqb k k2); [reflexivity | exact IH]. Qed.
